@@ -407,13 +407,13 @@ class Executor:
         if v is None:
             return {"NoneType"}
         if isinstance(v, bool) or is_bool(v):
-            return {"bool", "int", "Number"}
+            return {"bool", "int", "Number", "Real", "Integral"}
         if is_int(v) or isinstance(v, int):
-            return {"int", "Number"}
+            return {"int", "Number", "Real", "Integral"}
         if is_real(v):
-            return {"float", "Number"}
+            return {"float", "Number", "Real"}
         if isinstance(v, CVal):
-            return {"complex", "Number"}
+            return {"complex", "Number", "Complex"}
         if isinstance(v, str):
             return {"str"}
         if isinstance(v, tuple):
@@ -1436,6 +1436,9 @@ class Executor:
 
     def call_method(self, base, attr, args, kwargs, node):
         from . import builtins as bi
+        if attr == "is_integer" and not args and (is_real(lift(base)) or is_int(lift(base))):
+            b = lift(base)
+            return z3.BoolVal(True) if is_int(b) else z3.IsInt(b)       # float.is_integer(): the value is a whole number (A1: no inf / nan)
         if isinstance(base, Ref):
             h = self.heap[base.id]
             if isinstance(h, Obj):
